@@ -1543,6 +1543,38 @@ pub const ROUNDTRIP_DOCS: [&str; 40] = [
     "<?xml version=\"1.0\" encoding=\"ISO-8859-1\"?><r/>",
 ];
 
+pub fn roundtrip_enumerated() -> Vec<String> {
+    const ATTR: [&str; 14] = ["'", "\"", "&#34;", "&#39;", "&quot;", "&apos;", "a", "&lt;", "&amp;", "&#9;", "&#10;", " ", "&#x3C;", ">"];
+    const CONTENT: [&str; 15] = ["]", ">", "&gt;", "&#93;", "<![CDATA[]]]]>", "<![CDATA[>]]>", "<!--c-->", "a", "&#62;", "&lt;", "&amp;", "<e/>", "<?p?>", " ", "\n"];
+    fn seqs(pieces: &[&str], max: usize) -> Vec<String> {
+        let mut out: Vec<String> = vec![];
+        let mut layer: Vec<String> = vec![String::new()];
+        for _ in 0..max {
+            let mut next = vec![];
+            for s in &layer {
+                for p in pieces {
+                    next.push(format!("{}{}", s, p));
+                }
+            }
+            out.extend(next.iter().cloned());
+            layer = next;
+        }
+        out
+    }
+    let mut out = vec![];
+    for v in seqs(&ATTR, 3) {
+        for q in ['"', '\''] {
+            if !v.contains(q) {
+                out.push(format!("<r a={}{}{}/>", q, v, q));
+            }
+        }
+    }
+    for c in seqs(&CONTENT, 3) {
+        out.push(format!("<r>{}</r>", c));
+    }
+    out
+}
+
 pub fn info_roundtrip(doc: &str) -> Outcome {
     let observed = guard(|| {
         let (rest, tree) = match xml_parser::document(doc) {
